@@ -83,7 +83,12 @@ class CommonSubexpressionEliminationPass(ir.passes.InPlacePass):
                 ):
                     # For INT, FLOAT and STRING attributes, we convert them to tuples
                     # to ensure they are hashable.
-                    value = tuple(value)
+                    value = tuple(
+                        float(x).hex() if v.type is ir.AttributeType.FLOATS else x for x in value
+                    )
+                elif v.type is ir.AttributeType.FLOAT:
+                    # 0.0 == -0.0 (and hash equal) but they are different constants
+                    value = float(value).hex()
                 elif v.type is ir.AttributeType.TENSOR:
                     if value.size > self.size_limit:
                         # If the tensor is larger than the size limit, we skip it.
